@@ -326,8 +326,17 @@ def run_job(job, ctx):
     ctx.sample({"field": {"k": job["kind"], "o": job["opts"][-1]}, "value": job["vals"][0]})
 
 
+DOC_FORMATS = ["json", "xml", "yaml", "bson", "pickle"]
+FIXED_KEY = b"kks" + bytes((i * 11 + 5) % 256 for i in range(29))      # begins like several of the secrets: their xor form begins with NUL bytes
+
+
 def _mkworld(spec):
     import cincoconfig as cc
+    from mc import core
+    dk = core.default_keyfile()
+    if not os.path.exists(dk):
+        with open(dk, "wb") as fh:
+            fh.write(FIXED_KEY)
     schema = cc.Schema()
     field = R.mk_field(spec)
     schema.f = field
@@ -469,6 +478,23 @@ def check_pair(ctx, spec, vspec, case):
     if not _same(p[1], r1):
         bad("roundtrip", "to_python(to_basic(%s)) = %s" % (V.show(r1, 60), V.show(p[1], 60)))
         return
+    # ... and the on-disk form as it really travels: written into a document of each format, read back, decoded
+    if R.is_plain_data(b[1]) and b[1] is not None:
+        import cincoconfig as cc
+        from mc.props.c04 import representable
+        for fmt in DOC_FORMATS:
+            doc_tree = {"v": b[1]}
+            if not representable(doc_tree, fmt):
+                continue
+            ctx.transitions += 1
+            back = _try(lambda: cc.ConfigFormat.get(fmt).loads(cfg, cc.ConfigFormat.get(fmt).dumps(cfg, doc_tree))["v"])
+            via = _try(lambda: field.to_python(cfg, back[1])) if back[0] == "ok" else back
+            if via[0] != "ok":
+                bad("document-roundtrip-raises|" + fmt, "the on-disk form %s written to and read from a %s document, then decoded, raised %r" % (V.show(b[1], 60), fmt, via[1]))
+                return
+            if not _same(via[1], r1):
+                bad("document-roundtrip|" + fmt, "%s -> on-disk %s -> %s document -> %s" % (V.show(r1, 60), V.show(b[1], 60), fmt, V.show(via[1], 60)))
+                return
     r3 = _try(lambda: field.validate(cfg, p[1]))
     ctx.transitions += 5   # validate(again), validate(result), to_basic, to_python, validate
     ctx.states += 2        # the normal form and its on-disk form
